@@ -15,6 +15,10 @@ import (
 	"os"
 	"path/filepath"
 	"sort"
+	"strings"
+	"sync"
+	"time"
+	"unicode/utf16"
 
 	"github.com/spf13/afero"
 
@@ -36,6 +40,13 @@ type visoCaseJ struct {
 	OsFs  bool     `json:"osfs,omitempty"` // open with OsFs + absolute path (as make-iso does)
 	Ops   []opJ    `json:"ops"`
 	Fresh bool     `json:"fresh,omitempty"` // run every op on a freshly opened instance
+
+	Decode   bool     `json:"decode,omitempty"`   // emit a Volume event: the image as decoded by isodec + the tree as walked by the harness
+	TitleID  []string `json:"titleId,omitempty"`  // PS3 mode: the TITLE_ID the script put into PARAM.SFO
+	NoCanon  bool     `json:"noCanon,omitempty"`  // do not read the whole image sequentially (huge images)
+	Reopen   int      `json:"reopen,omitempty"`   // C18: open the image this many more times and compare (masked) with the first
+	SleepMs  int      `json:"sleepMs,omitempty"`  // C18: pause before the re-opens
+	Parallel bool     `json:"parallel,omitempty"` // C18: do the re-opens concurrently
 }
 
 type visoScriptJ struct {
@@ -149,18 +160,25 @@ func runVisoCase(c *visoCaseJ, em *emitter, index int) error {
 	ref, err := open()
 	if err != nil {
 		ev["opened"] = false
-		ev["mustOpen"] = true
 		ev["err"] = err.Error()
+		ev["tree"] = treeFacts(filepath.Join(append([]string{w.root}, c.Dir...)...), w)
 		em.emit(ev)
 		return nil
 	}
 	ev["opened"] = true
 	st, _ := ref.Stat()
 	announced := st.Size()
-	canon, cerr := sequentialImage(ref, announced+(64<<20))
+	var canon []byte
+	var cerr error
+	if !c.NoCanon {
+		canon, cerr = sequentialImage(ref, announced+(64<<20))
+	}
 	ref.Close()
 	ev["announced"] = pos(announced)
 	ev["total"] = pos(int64(len(canon)))
+	if c.NoCanon {
+		ev["total"] = pos(announced)
+	}
 	ev["canon"] = "ok"
 	if cerr != nil {
 		ev["canon"] = "failed: " + cerr.Error()
@@ -201,6 +219,21 @@ func runVisoCase(c *visoCaseJ, em *emitter, index int) error {
 	em.emit(ev)
 	if cerr != nil {
 		return nil
+	}
+	if c.Decode {
+		g, err := open()
+		if err != nil {
+			return err
+		}
+		vol := decodeVolume(g, announced, reg, c.Ps3)
+		g.Close()
+		em.emit(map[string]interface{}{"ev": "Volume", "name": c.Name, "ps3": c.Ps3, "titleId": c.TitleID, "vol": vol,
+			"tree": treeFacts(filepath.Join(append([]string{w.root}, c.Dir...)...), w)})
+	}
+	if c.Reopen > 0 {
+		if err := reopenCompare(c, open, canon, announced, em); err != nil {
+			return err
+		}
 	}
 
 	var f fileLike
@@ -270,4 +303,135 @@ func sliceEq(canon []byte, at int64, got []byte, mask [][2]int64) bool {
 		return true
 	}
 	return equalMasked(canon[at:at+int64(len(got))], got, at, mask)
+}
+
+// treeFacts: the directory as the harness itself walks it (lstat/readdir), with
+// the string facts about each name that the specification cannot compute.
+func treeFacts(root string, w *world) []interface{} {
+	out := []interface{}{}
+	var walk func(dir string, p []string)
+	walk = func(dir string, p []string) {
+		ents, err := os.ReadDir(dir)
+		if err != nil {
+			return
+		}
+		for _, e := range ents {
+			full := filepath.Join(dir, e.Name())
+			st, err := os.Stat(full) // the generator follows symlinks
+			if err != nil {
+				out = append(out, map[string]interface{}{"path": append(append([]string{}, p...), sanitize(e.Name())), "kind": "dangling",
+					"size": pos(0), "cid": "", "name": nameFacts(e.Name()), "sparse": false})
+				continue
+			}
+			np := append(append([]string{}, p...), sanitize(e.Name()))
+			if st.IsDir() {
+				out = append(out, map[string]interface{}{"path": np, "kind": "dir", "size": pos(0), "cid": "", "name": nameFacts(e.Name()), "sparse": false})
+				walk(full, np)
+				continue
+			}
+			cid, sparse := "", false
+			if ci, ok := w.carry[full]; ok {
+				cid = ci.node.Cid
+				sparse = ci.node.Islands != nil
+			}
+			out = append(out, map[string]interface{}{"path": np, "kind": "file", "size": pos(st.Size()), "cid": cid, "name": nameFacts(e.Name()), "sparse": sparse})
+		}
+	}
+	walk(root, []string{})
+	return out
+}
+
+// nameFacts: pure string facts about a file name.
+func nameFacts(n string) map[string]interface{} {
+	portable := len(n) > 0
+	for i := 0; i < len(n); i++ {
+		c := n[i]
+		if !(c >= 'A' && c <= 'Z' || c >= 'a' && c <= 'z' || c >= '0' && c <= '9' || c == '_' || c == '.' || c == '-') {
+			portable = false
+		}
+	}
+	return map[string]interface{}{"raw": sanitize(n), "upper": sanitize(strings.ToUpper(n)), "portable": portable, "bytes": len(n),
+		"utf16units": len(utf16.Encode([]rune(n)))}
+}
+
+// reopenCompare (C18): further opens of the same unchanged directory must give
+// an image of the same size whose bytes differ from the first only inside the
+// documented variable fields.
+func reopenCompare(c *visoCaseJ, open func() (fileLike, error), first []byte, announced int64, em *emitter) error {
+	if c.SleepMs > 0 {
+		time.Sleep(time.Duration(c.SleepMs) * time.Millisecond)
+	}
+	type res struct {
+		size     int64
+		diffs    [][2]int64 // byte ranges (outside the mask) that differ
+		maskDiff bool
+		err      string
+	}
+	results := make([]res, c.Reopen)
+	one := func(i int) {
+		f, err := open()
+		if err != nil {
+			results[i].err = err.Error()
+			return
+		}
+		defer f.Close()
+		st, _ := f.Stat()
+		results[i].size = st.Size()
+		img, err := sequentialImage(f, announced+(64<<20))
+		if err != nil {
+			results[i].err = err.Error()
+			return
+		}
+		mask := varMask(c.Ps3)
+		n := min(len(img), len(first))
+		start := int64(-1)
+		for j := 0; j <= n; j++ {
+			differ := j < n && img[j] != first[j]
+			masked := false
+			if differ {
+				for _, m := range mask {
+					if int64(j) >= m[0] && int64(j) < m[1] {
+						masked = true
+					}
+				}
+				if masked {
+					results[i].maskDiff = true
+					differ = false
+				}
+			}
+			if differ && start < 0 {
+				start = int64(j)
+			}
+			if !differ && start >= 0 {
+				if len(results[i].diffs) < 8 {
+					results[i].diffs = append(results[i].diffs, [2]int64{start, int64(j)})
+				}
+				start = -1
+			}
+		}
+		if len(img) != len(first) {
+			results[i].diffs = append(results[i].diffs, [2]int64{int64(n), int64(max(len(img), len(first)))})
+		}
+	}
+	if c.Parallel {
+		var wg sync.WaitGroup
+		for i := range results {
+			wg.Add(1)
+			go func() { defer wg.Done(); one(i) }()
+		}
+		wg.Wait()
+	} else {
+		for i := range results {
+			one(i)
+		}
+	}
+	for i, r := range results {
+		d := r.diffs
+		if d == nil {
+			d = [][2]int64{}
+		}
+		em.emit(map[string]interface{}{"ev": "Reopen", "i": i, "size": pos(r.size), "first": pos(announced), "diffs": d, "err": r.err,
+			"parallel": c.Parallel, "variableFieldsDiffer": r.maskDiff})
+	}
+	return nil
 }
